@@ -117,6 +117,19 @@ def roundtrip(g, level, text, parse, do_generate, single_molecule):
             if g1 != g2:
                 out.append((f"{level}:different-molecule-for-equal-seed", f"{level} {text!r} vs its canonical form {c!r}: seed {seed} gives {g1} vs {g2}"))
                 break
+    if do_generate and not out and type(o1).__name__ == "Molecule":
+        # read-only queries (generation above, the reaction graph here) leave the object - hence its canonical string - as parsed
+        try:
+            o1.gen_reaction_graph()
+        except Exception:
+            pass
+        try:
+            c3 = str(o1)
+        except Exception as exc:
+            c3 = f"<printing raises {type(exc).__name__}>"
+        if c3 != c:
+            out.append((f"{level}:canonical-string-changes-after-read-only-queries",
+                        f"{level} {text!r} printed as {c!r}; after generate() and gen_reaction_graph() the same object prints as {c3!r}"))
     return out
 
 
